@@ -15,7 +15,12 @@ class SharedDictDataset(CachedDataset):
             sample = self.dataset[idx]
             self.shared_dict[idx] = sample
         else:
-            sample = self.shared_dict[idx]
+            try:
+                sample = self.shared_dict[idx]
+            except KeyError:
+                # dispose was called (by another process) between the membership test and the read -> load again
+                sample = self.dataset[idx]
+                self.shared_dict[idx] = sample
         return sample
 
     def dispose(self):
